@@ -58,6 +58,7 @@ type vState struct {
 	lastCase     any
 	lastMsg      string
 	knownOpen    map[string]bool
+	journalF     *os.File
 }
 
 const vHashCap = 400000
@@ -295,9 +296,22 @@ func (v *vState) Journal(test string, c any) {
 		return
 	}
 	b, err := json.Marshal(map[string]any{"test": test, "case": c})
-	if err == nil {
-		os.WriteFile(filepath.Join(v.out, "journal.json"), b, 0o644)
+	if err != nil {
+		return
 	}
+	// One file, overwritten in place without truncation (truncate-then-write
+	// makes ext4 flush synchronously): 10-digit length, newline, payload.
+	v.mu.Lock()
+	defer v.mu.Unlock()
+	if v.journalF == nil {
+		f, err := os.OpenFile(filepath.Join(v.out, "journal.bin"), os.O_CREATE|os.O_RDWR, 0o644)
+		if err != nil {
+			return
+		}
+		v.journalF = f
+	}
+	v.journalF.WriteAt([]byte(fmt.Sprintf("%010d\n", len(b))), 0)
+	v.journalF.WriteAt(b, 11)
 }
 
 // OnlyMatch filters enumerated cases in replay mode.
